@@ -392,6 +392,17 @@ def run(ctx, cases_override=None):
         return fails
     # ---- V: views (exact) + the same under AddressSanitizer for the zero-copy ops
     v = view_cases(tier, seed) + block_cases(tier, seed) + complex_cases(tier, seed)
+    # adapters composed: the block adapter on top of the row-builder / zero-copy / tuple adapters (it keeps several row
+    # iterators of the underlying adapter alive at once)
+    comp = []
+    for l in v:
+        sp = l.split(" ", 3)
+        if sp[1] == "block":
+            dims_ = sp[3].split(" ", 2)
+            if dims_[0] == dims_[1]:
+                for u in ("builder", "zero_copy", "tuple"):
+                    comp.append("%s%s block_over %s %s %s" % (sp[0], u[0], u, sp[2], sp[3]))
+    v = v + comp
     f, impl, model = diff_run(ctx, "adapters", v, theorem="correspondence drv_adapters vs Adapters.v (views; theorems C17_*_view, C17_reorder_entries, C17_scaled_entries)")
     fails += f
     zc = [l for l in v if l.split()[1].startswith("zero_copy")]
